@@ -529,3 +529,1128 @@ Qed.
 
 Lemma utf8_valid_app a b : utf8_valid a = true -> utf8_valid b = true -> utf8_valid (a ++ b) = true.
 Proof. unfold utf8_valid. apply (utf8_valid_app_n (length a)). lia. Qed.
+
+(* ================================================================================== *)
+(* A3. strings                                                                          *)
+(* ================================================================================== *)
+
+Lemma pre_nil o : pre [] o = o.
+Proof. destruct o; reflexivity. Qed.
+
+Lemma pre_pre a b o : pre a (pre b o) = pre (a ++ b) o.
+Proof. destruct o; simpl; [rewrite app_assoc|]; reflexivity. Qed.
+
+Lemma pre_some_inv p o s : pre p o = Some s -> exists s', o = Some s' /\ s = p ++ s'.
+Proof. destruct o as [s'|]; simpl; intro H; inversion H. exists s'. split; reflexivity. Qed.
+
+Lemma pre_some p s : pre p (Some s) = Some (p ++ s).
+Proof. reflexivity. Qed.
+
+(* --- hex digits, escapes --- *)
+
+Lemma hex_val_hexv h : hexdig h -> hex_val h = Some (hexv h).
+Proof.
+  unfold hexdig, hex_val, hexv, rng. intro H.
+  destruct H as [H|[H|H]]; bdec.
+Qed.
+
+Lemma hex_val_some h v : hex_val h = Some v -> hexdig h /\ v = hexv h.
+Proof.
+  unfold hex_val. intro H.
+  destruct (rng 48 57 h) eqn:E1.
+  { apply rng_true in E1. assert (Hd : hexdig h) by (unfold hexdig; lia).
+    split; [exact Hd|]. inversion H. unfold hexv. bdec. }
+  destruct (rng 97 102 h) eqn:E2.
+  { apply rng_true in E2. split; [unfold hexdig; lia|]. inversion H. unfold hexv. bdec. }
+  destruct (rng 65 70 h) eqn:E3; [|discriminate].
+  apply rng_true in E3. split; [unfold hexdig; lia|]. inversion H. unfold hexv. bdec.
+Qed.
+
+Lemma getu4_u16 h1 h2 h3 h4 : hexdig h1 -> hexdig h2 -> hexdig h3 -> hexdig h4 ->
+  getu4 h1 h2 h3 h4 = Some (u16 h1 h2 h3 h4).
+Proof.
+  intros H1 H2 H3 H4. unfold getu4.
+  rewrite (hex_val_hexv _ H1), (hex_val_hexv _ H2), (hex_val_hexv _ H3), (hex_val_hexv _ H4).
+  f_equal. unfold u16. lia.
+Qed.
+
+Lemma getu4_some h1 h2 h3 h4 rr : getu4 h1 h2 h3 h4 = Some rr ->
+  hexdig h1 /\ hexdig h2 /\ hexdig h3 /\ hexdig h4 /\ rr = u16 h1 h2 h3 h4.
+Proof.
+  unfold getu4. intro H.
+  destruct (hex_val h1) as [a|] eqn:E1; [|discriminate].
+  destruct (hex_val h2) as [b|] eqn:E2; [|discriminate].
+  destruct (hex_val h3) as [c|] eqn:E3; [|discriminate].
+  destruct (hex_val h4) as [d|] eqn:E4; [|discriminate].
+  apply hex_val_some in E1, E2, E3, E4.
+  destruct E1 as [G1 ->], E2 as [G2 ->], E3 as [G3 ->], E4 as [G4 ->].
+  inversion H. repeat split; try assumption. unfold u16. lia.
+Qed.
+
+Lemma hexdig_ascii h : hexdig h -> h < 128.
+Proof. unfold hexdig. lia. Qed.
+
+Lemma simple_escape_val c : esc_letter c -> simple_escape c = Some (esc_val c).
+Proof.
+  unfold esc_letter. intros [->|[->|[->|[->|[->|[->|[->| ->]]]]]]]; reflexivity.
+Qed.
+
+Lemma simple_escape_some e v : simple_escape e = Some v -> esc_letter e /\ v = esc_val e.
+Proof.
+  unfold simple_escape. intro H.
+  destruct ((e =? 34) || (e =? 92) || (e =? 47)) eqn:E1.
+  { inversion H; subst. apply orb_true_iff in E1. destruct E1 as [E1|E1].
+    - apply orb_true_iff in E1. destruct E1 as [E1|E1]; apply Z.eqb_eq in E1; subst;
+        (split; [unfold esc_letter; lia|reflexivity]).
+    - apply Z.eqb_eq in E1; subst. split; [unfold esc_letter; lia|reflexivity]. }
+  destruct (e =? 98) eqn:E2. { apply Z.eqb_eq in E2; subst. inversion H. split; [unfold esc_letter; lia|reflexivity]. }
+  destruct (e =? 102) eqn:E3. { apply Z.eqb_eq in E3; subst. inversion H. split; [unfold esc_letter; lia|reflexivity]. }
+  destruct (e =? 110) eqn:E4. { apply Z.eqb_eq in E4; subst. inversion H. split; [unfold esc_letter; lia|reflexivity]. }
+  destruct (e =? 114) eqn:E5. { apply Z.eqb_eq in E5; subst. inversion H. split; [unfold esc_letter; lia|reflexivity]. }
+  destruct (e =? 116) eqn:E6; [|discriminate].
+  apply Z.eqb_eq in E6; subst. inversion H. split; [unfold esc_letter; lia|reflexivity].
+Qed.
+
+Lemma is_surrogate_split u : is_surrogate u = is_high u || is_low u.
+Proof. unfold is_surrogate, is_high, is_low. bdec. Qed.
+
+Lemma utf16_pair_spec r1 r2 :
+  utf16_pair r1 r2 = if is_high r1 && is_low r2 then Some (pair_cp r1 r2) else None.
+Proof.
+  unfold utf16_pair, is_high, is_low, pair_cp.
+  destruct ((55296 <=? r1) && (r1 <? 56320)) eqn:E1; cbn [andb]; [|reflexivity].
+  destruct ((56320 <=? r2) && (r2 <? 57344)) eqn:E2; [|reflexivity].
+  f_equal. lia.
+Qed.
+
+(* --- the loop, unfolded once --- *)
+
+(* getu4(s[r:]) for the second escape of a surrogate pair *)
+Definition lookahead_low (r2 : list Z) : option (Z * list Z) :=
+  match r2 with
+  | b :: u :: l1 :: l2 :: l3 :: l4 :: r3 =>
+      if (b =? 92) && (u =? 117) then
+        match getu4 l1 l2 l3 l4 with Some rr1 => Some (rr1, r3) | None => None end
+      else None
+  | _ => None
+  end.
+
+Definition pair_result (r2 : list Z) (rr : Z) : option (Z * list Z) :=
+  match lookahead_low r2 with
+  | Some (rr1, r3) => match utf16_pair rr rr1 with Some cp => Some (cp, r3) | None => None end
+  | None => None
+  end.
+
+Lemma str_loop_u h1 h2 h3 h4 r2 :
+  str_loop (92 :: 117 :: h1 :: h2 :: h3 :: h4 :: r2) 0%nat =
+  match getu4 h1 h2 h3 h4 with
+  | None => None
+  | Some rr =>
+      if is_surrogate rr then
+        match pair_result r2 rr with
+        | Some (cp, r3) => pre (utf8_encode cp) (str_loop r3 0%nat)
+        | None => pre fffd (str_loop r2 0%nat)
+        end
+      else pre (utf8_encode rr) (str_loop r2 0%nat)
+  end.
+Proof.
+  cbn [str_loop]. replace (92 =? 34) with false by reflexivity. replace (92 =? 92) with true by reflexivity.
+  replace (117 =? 117) with true by reflexivity.
+  destruct (getu4 h1 h2 h3 h4) as [rr|]; [|reflexivity].
+  destruct (is_surrogate rr); [|reflexivity].
+  unfold pair_result, lookahead_low.
+  destruct r2 as [|b [|u [|l1 [|l2 [|l3 [|l4 r3]]]]]]; try reflexivity.
+  destruct ((b =? 92) && (u =? 117)); [|reflexivity].
+  destruct (getu4 l1 l2 l3 l4) as [rr1|]; [|reflexivity].
+  destruct (utf16_pair rr rr1); reflexivity.
+Qed.
+
+Lemma str_loop_u_short r1 : (length r1 < 4)%nat -> str_loop (92 :: 117 :: r1) 0%nat = None.
+Proof.
+  intro H. cbn [str_loop]. replace (92 =? 34) with false by reflexivity.
+  replace (92 =? 92) with true by reflexivity. replace (117 =? 117) with true by reflexivity.
+  destruct r1 as [|a [|b [|c [|d r]]]]; try reflexivity. simpl in H. lia.
+Qed.
+
+Lemma str_loop_esc e r1 : e <> 117 ->
+  str_loop (92 :: e :: r1) 0%nat =
+  match simple_escape e with Some v => pre [v] (str_loop r1 0%nat) | None => None end.
+Proof.
+  intro H. cbn [str_loop]. replace (92 =? 34) with false by reflexivity.
+  replace (92 =? 92) with true by reflexivity.
+  replace (e =? 117) with false by (symmetry; apply Z.eqb_neq; exact H). reflexivity.
+Qed.
+
+Lemma str_loop_quote rest : str_loop (34 :: rest) 0%nat = if forallb js_space rest then Some [] else None.
+Proof. cbn [str_loop]. replace (34 =? 34) with true by reflexivity. reflexivity. Qed.
+
+Lemma str_loop_ascii c rest : c <> 34 -> c <> 92 -> 32 <= c < 128 ->
+  str_loop (c :: rest) 0%nat = pre [c] (str_loop rest 0%nat).
+Proof.
+  intros H1 H2 H3. cbn [str_loop].
+  replace (c =? 34) with false by (symmetry; apply Z.eqb_neq; exact H1).
+  replace (c =? 92) with false by (symmetry; apply Z.eqb_neq; exact H2).
+  replace (c <? 32) with false by (symmetry; apply Z.ltb_ge; lia).
+  replace (c <? 128) with true by (symmetry; apply Z.ltb_lt; lia). reflexivity.
+Qed.
+
+Lemma str_loop_high c rest : 128 <= c ->
+  str_loop (c :: rest) 0%nat =
+  match go_rune_len (c :: rest) with
+  | O => pre fffd (str_loop rest 0%nat)
+  | S k => pre [c] (str_loop rest k)
+  end.
+Proof.
+  intros H. cbn [str_loop].
+  replace (c =? 34) with false by (symmetry; apply Z.eqb_neq; lia).
+  replace (c =? 92) with false by (symmetry; apply Z.eqb_neq; lia).
+  replace (c <? 32) with false by (symmetry; apply Z.ltb_ge; lia).
+  replace (c <? 128) with false by (symmetry; apply Z.ltb_ge; lia). reflexivity.
+Qed.
+
+Lemma str_loop_pending pfx more : str_loop (pfx ++ more) (length pfx) = pre pfx (str_loop more 0%nat).
+Proof.
+  induction pfx as [|c pfx IH]; [symmetry; apply pre_nil|].
+  cbn [app length str_loop]. rewrite IH. apply pre_pre.
+Qed.
+
+Lemma str_loop_multi mb more : Utf8Multi mb -> str_loop (mb ++ more) 0%nat = pre mb (str_loop more 0%nat).
+Proof.
+  intro H. destruct (Utf8Multi_cons _ H) as [c [t [E Hc]]].
+  assert (G := go_rune_len_multi mb more H). subst mb. cbn [app] in *.
+  rewrite (str_loop_high _ _ Hc). rewrite G. cbn [length]. rewrite str_loop_pending. apply pre_pre.
+Qed.
+
+(* --- lookahead on the bytes of the following items --- *)
+
+Lemma lookahead_not92 b r : b <> 92 -> lookahead_low (b :: r) = None.
+Proof.
+  intro H. unfold lookahead_low. destruct r as [|u [|l1 [|l2 [|l3 [|l4 r3]]]]]; try reflexivity.
+  replace (b =? 92) with false by (symmetry; apply Z.eqb_neq; exact H). reflexivity.
+Qed.
+
+Lemma lookahead_esc c r : c <> 117 -> lookahead_low (92 :: c :: r) = None.
+Proof.
+  intro H. unfold lookahead_low. destruct r as [|l1 [|l2 [|l3 [|l4 r3]]]]; try reflexivity.
+  replace (c =? 117) with false by (symmetry; apply Z.eqb_neq; exact H). rewrite andb_false_r. reflexivity.
+Qed.
+
+Lemma lookahead_uni a b c d r : hexdig a -> hexdig b -> hexdig c -> hexdig d ->
+  lookahead_low (92 :: 117 :: a :: b :: c :: d :: r) = Some (u16 a b c d, r).
+Proof.
+  intros. unfold lookahead_low. replace ((92 =? 92) && (117 =? 117)) with true by reflexivity.
+  rewrite getu4_u16 by assumption. reflexivity.
+Qed.
+
+Lemma lookahead_some_inv r2 rr1 r3 : lookahead_low r2 = Some (rr1, r3) ->
+  exists a b c d, r2 = 92 :: 117 :: a :: b :: c :: d :: r3 /\
+                  hexdig a /\ hexdig b /\ hexdig c /\ hexdig d /\ rr1 = u16 a b c d.
+Proof.
+  unfold lookahead_low. destruct r2 as [|b0 [|u [|l1 [|l2 [|l3 [|l4 r3']]]]]]; try discriminate.
+  destruct ((b0 =? 92) && (u =? 117)) eqn:E; [|discriminate].
+  apply andb_true_iff in E. destruct E as [E1 E2]. apply Z.eqb_eq in E1, E2. subst.
+  destruct (getu4 l1 l2 l3 l4) as [x|] eqn:G; [|discriminate].
+  intro H; inversion H; subst. destruct (getu4_some _ _ _ _ _ G) as [G1 [G2 [G3 [G4 G5]]]].
+  exists l1, l2, l3, l4. repeat split; assumption.
+Qed.
+
+Lemma pair_result_not_high r2 rr : is_high rr = false -> pair_result r2 rr = None.
+Proof.
+  intro H. unfold pair_result. destruct (lookahead_low r2) as [[rr1 r3]|]; [|reflexivity].
+  rewrite utf16_pair_spec. rewrite H. reflexivity.
+Qed.
+
+Lemma Unescaped_head bs : Unescaped bs -> exists b r, bs = b :: r /\ b <> 92 /\ b <> 34 /\ 32 <= b.
+Proof.
+  intros [b Hb H34 H92|bs' Hm].
+  - exists b, []. repeat split; lia.
+  - destruct (Utf8Multi_cons _ Hm) as [c [t [-> Hc]]]. exists c, t. repeat split; lia.
+Qed.
+
+(* the outcome of the pair test, from the items that follow *)
+Lemma pair_result_items items w rr : Forall item_ok items -> is_high rr = true ->
+  pair_result (flat_map item_bytes items ++ 34 :: w) rr =
+  match items with
+  | IUni a b c d :: items' =>
+      if is_low (u16 a b c d)
+      then Some (pair_cp rr (u16 a b c d), flat_map item_bytes items' ++ 34 :: w) else None
+  | _ => None
+  end.
+Proof.
+  intros Hi Hh. unfold pair_result. destruct items as [|i items'].
+  - cbn [flat_map app]. rewrite lookahead_not92 by lia. reflexivity.
+  - inversion Hi as [|? ? Hi1 _]; subst. cbn [flat_map]. rewrite <- app_assoc.
+    destruct i as [bs|c|a b c d]; cbn [item_bytes]; simpl in Hi1.
+    + destruct (Unescaped_head _ Hi1) as [b0 [r [-> [N _]]]]. cbn [app]. rewrite lookahead_not92 by exact N. reflexivity.
+    + cbn [app]. rewrite lookahead_esc by (unfold esc_letter in Hi1; lia). reflexivity.
+    + cbn [app]. destruct Hi1 as [G1 [G2 [G3 G4]]]. rewrite lookahead_uni by assumption.
+      rewrite utf16_pair_spec. rewrite Hh. cbn [andb]. destruct (is_low (u16 a b c d)); reflexivity.
+Qed.
+
+Lemma js_space_WS w : forallb js_space w = true -> WS w.
+Proof.
+  intro H. unfold WS. apply Forall_forall. intros x Hx.
+  rewrite forallb_forall in H. specialize (H x Hx). unfold js_space in H. unfold ws_byte.
+  repeat (apply orb_true_iff in H; destruct H as [H|H]); apply Z.eqb_eq in H; lia.
+Qed.
+
+Lemma WS_js_space w : WS w -> forallb js_space w = true.
+Proof.
+  intro H. apply forallb_forall. intros x Hx. unfold WS in H. rewrite Forall_forall in H.
+  specialize (H x Hx). unfold ws_byte in H. unfold js_space.
+  destruct H as [->|[->|[->| ->]]]; reflexivity.
+Qed.
+
+(* --- completeness: a JSON string literal decodes to the value the grammar gives --- *)
+
+Lemma str_loop_items_n : forall n items w, (length items <= n)%nat -> Forall item_ok items ->
+  forallb js_space w = true ->
+  str_loop (flat_map item_bytes items ++ 34 :: w) 0%nat = Some (resolve items).
+Proof.
+  induction n as [|n IH]; intros items w Hn Hi Hw.
+  - destruct items; [|simpl in Hn; lia]. cbn [flat_map app resolve]. rewrite str_loop_quote, Hw. reflexivity.
+  - destruct items as [|i items].
+    { cbn [flat_map app resolve]. rewrite str_loop_quote, Hw. reflexivity. }
+    inversion Hi as [|? ? Hi1 Hi2]; subst. cbn [flat_map]. rewrite <- app_assoc.
+    assert (IHt : str_loop (flat_map item_bytes items ++ 34 :: w) 0%nat = Some (resolve items))
+      by (apply IH; [simpl in Hn; lia|exact Hi2|exact Hw]).
+    destruct i as [bs|c|a b c d]; cbn [item_bytes]; simpl in Hi1.
+    + destruct Hi1 as [b0 Hb H34 H92|bs Hm].
+      * cbn [app]. rewrite str_loop_ascii by lia. rewrite IHt. reflexivity.
+      * rewrite (str_loop_multi _ _ Hm). rewrite IHt. reflexivity.
+    + cbn [app]. rewrite str_loop_esc by (unfold esc_letter in Hi1; lia).
+      rewrite (simple_escape_val _ Hi1). rewrite IHt. reflexivity.
+    + cbn [app]. destruct Hi1 as [G1 [G2 [G3 G4]]]. rewrite str_loop_u.
+      rewrite getu4_u16 by assumption. rewrite is_surrogate_split. cbn [resolve].
+      destruct (is_high (u16 a b c d)) eqn:Eh.
+      * cbn [orb]. rewrite (pair_result_items _ _ _ Hi2 Eh).
+        destruct items as [|[bs'|c'|a' b' c' d'] items'']; try (rewrite IHt; reflexivity).
+        destruct (is_low (u16 a' b' c' d')) eqn:El; [|rewrite IHt; reflexivity].
+        inversion Hi2 as [|? ? _ Hi3]; subst.
+        rewrite (IH items'' w); [reflexivity|simpl in Hn; lia|exact Hi3|exact Hw].
+      * cbn [orb]. destruct (is_low (u16 a b c d)) eqn:El.
+        -- rewrite (pair_result_not_high _ _ Eh). rewrite IHt. reflexivity.
+        -- rewrite IHt. reflexivity.
+Qed.
+
+Theorem json_string_decode_complete sb s : StringLit sb s -> json_string_decode sb = Some s.
+Proof.
+  intros [items Hi]. unfold json_string_decode.
+  apply (str_loop_items_n (length items)); [lia|exact Hi|reflexivity].
+Qed.
+
+(* with trailing whitespace, as json.Unmarshal accepts *)
+Lemma json_string_decode_ws sb s w : StringLit sb s -> WS w -> json_string_decode (sb ++ w) = Some s.
+Proof.
+  intros [items Hi] Hw. unfold json_string_decode. cbn [app]. rewrite <- app_assoc. cbn [app].
+  apply (str_loop_items_n (length items)); [lia|exact Hi|apply WS_js_space; exact Hw].
+Qed.
+
+(* --- soundness: what decodes (and is valid UTF-8) is a JSON string literal,
+       possibly followed by whitespace --- *)
+
+Lemma pair_result_some_inv r2 rr cp r3 : pair_result r2 rr = Some (cp, r3) ->
+  exists a b c d, r2 = 92 :: 117 :: a :: b :: c :: d :: r3 /\
+    hexdig a /\ hexdig b /\ hexdig c /\ hexdig d /\
+    is_high rr = true /\ is_low (u16 a b c d) = true /\ cp = pair_cp rr (u16 a b c d).
+Proof.
+  unfold pair_result. destruct (lookahead_low r2) as [[rr1 r3']|] eqn:E; [|discriminate].
+  destruct (lookahead_some_inv _ _ _ E) as [a [b [c [d [E1 [G1 [G2 [G3 [G4 G5]]]]]]]]].
+  rewrite utf16_pair_spec. destruct (is_high rr) eqn:Eh; cbn [andb]; [|discriminate].
+  destruct (is_low rr1) eqn:El; [|discriminate].
+  intro H; inversion H; subst. exists a, b, c, d. repeat split; assumption.
+Qed.
+
+(* when the pair test fails, the next item is not a low-surrogate escape *)
+Lemma resolve_uni_fffd a b c d items w :
+  Forall item_ok items ->
+  is_surrogate (u16 a b c d) = true ->
+  pair_result (flat_map item_bytes items ++ 34 :: w) (u16 a b c d) = None ->
+  resolve (IUni a b c d :: items) = fffd ++ resolve items.
+Proof.
+  intros Hi Hs Hp. cbn [resolve]. rewrite is_surrogate_split in Hs.
+  destruct (is_high (u16 a b c d)) eqn:Eh.
+  - rewrite (pair_result_items _ _ _ Hi Eh) in Hp.
+    destruct items as [|[bs'|c'|a' b' c' d'] items'']; try reflexivity.
+    destruct (is_low (u16 a' b' c' d')); [discriminate|reflexivity].
+  - cbn [orb] in Hs. rewrite Hs. reflexivity.
+Qed.
+
+Lemma str_loop_sound_n : forall n bs s, (length bs <= n)%nat ->
+  str_loop bs 0%nat = Some s -> utf8_valid_from bs 0%nat = true ->
+  exists items w, bs = flat_map item_bytes items ++ 34 :: w /\ Forall item_ok items /\
+                  s = resolve items /\ WS w.
+Proof.
+  induction n as [|n IH]; intros bs s Hn H Hv.
+  - destruct bs; [discriminate|simpl in Hn; lia].
+  - destruct bs as [|c rest]; [discriminate|]. simpl in Hn.
+    destruct (Z.eq_dec c 34) as [->|N34].
+    { rewrite str_loop_quote in H. destruct (forallb js_space rest) eqn:Ew; [|discriminate].
+      inversion H; subst. exists [], rest. repeat split; [constructor|apply js_space_WS; exact Ew]. }
+    destruct (Z.eq_dec c 92) as [->|N92].
+    { destruct rest as [|e r1]; [discriminate|].
+      destruct (Z.eq_dec e 117) as [->|N117].
+      - (* \uXXXX *)
+        destruct (Nat.lt_ge_cases (length r1) 4) as [Hs|Hl].
+        { rewrite str_loop_u_short in H by exact Hs. discriminate. }
+        destruct r1 as [|h1 [|h2 [|h3 [|h4 r2]]]]; try (simpl in Hl; lia).
+        rewrite str_loop_u in H.
+        destruct (getu4 h1 h2 h3 h4) as [rr|] eqn:G; [|discriminate].
+        destruct (getu4_some _ _ _ _ _ G) as [G1 [G2 [G3 [G4 ->]]]].
+        assert (Hv2 : utf8_valid_from r2 0%nat = true).
+        { change (92 :: 117 :: h1 :: h2 :: h3 :: h4 :: r2) with ([92; 117; h1; h2; h3; h4] ++ r2) in Hv.
+          rewrite utf8_valid_ascii_list in Hv; [exact Hv|].
+          repeat constructor; try (apply hexdig_ascii; assumption); lia. }
+        destruct (is_surrogate (u16 h1 h2 h3 h4)) eqn:Es.
+        + destruct (pair_result r2 (u16 h1 h2 h3 h4)) as [[cp r3]|] eqn:Ep.
+          * destruct (pair_result_some_inv _ _ _ _ Ep) as [a [b [c [d [E2 [K1 [K2 [K3 [K4 [Kh [Kl ->]]]]]]]]]]].
+            subst r2. destruct (pre_some_inv _ _ _ H) as [s' [Hs' ->]].
+            assert (Hv3 : utf8_valid_from r3 0%nat = true).
+            { change (92 :: 117 :: a :: b :: c :: d :: r3) with ([92; 117; a; b; c; d] ++ r3) in Hv2.
+              rewrite utf8_valid_ascii_list in Hv2; [exact Hv2|].
+              repeat constructor; try (apply hexdig_ascii; assumption); lia. }
+            destruct (IH r3 s') as [items [w [E [Hi [-> Hw]]]]]; [simpl in *; lia|exact Hs'|exact Hv3|].
+            exists (IUni h1 h2 h3 h4 :: IUni a b c d :: items), w. repeat split.
+            -- cbn [flat_map item_bytes app]. rewrite E. reflexivity.
+            -- constructor; [simpl; tauto|]. constructor; [simpl; tauto|exact Hi].
+            -- cbn [resolve]. rewrite Kh, Kl. reflexivity.
+            -- exact Hw.
+          * destruct (pre_some_inv _ _ _ H) as [s' [Hs' ->]].
+            destruct (IH r2 s') as [items [w [E [Hi [-> Hw]]]]]; [simpl in *; lia|exact Hs'|exact Hv2|].
+            exists (IUni h1 h2 h3 h4 :: items), w. repeat split.
+            -- cbn [flat_map item_bytes app]. rewrite E. reflexivity.
+            -- constructor; [simpl; tauto|exact Hi].
+            -- symmetry. apply (resolve_uni_fffd _ _ _ _ _ w Hi Es). rewrite <- E. exact Ep.
+            -- exact Hw.
+        + destruct (pre_some_inv _ _ _ H) as [s' [Hs' ->]].
+          destruct (IH r2 s') as [items [w [E [Hi [-> Hw]]]]]; [simpl in *; lia|exact Hs'|exact Hv2|].
+          exists (IUni h1 h2 h3 h4 :: items), w. repeat split.
+          * cbn [flat_map item_bytes app]. rewrite E. reflexivity.
+          * constructor; [simpl; tauto|exact Hi].
+          * cbn [resolve]. rewrite is_surrogate_split in Es. apply orb_false_iff in Es.
+            destruct Es as [-> ->]. reflexivity.
+          * exact Hw.
+      - (* two-character escape *)
+        rewrite str_loop_esc in H by exact N117.
+        destruct (simple_escape e) as [v|] eqn:Ee; [|discriminate].
+        destruct (simple_escape_some _ _ Ee) as [He ->].
+        destruct (pre_some_inv _ _ _ H) as [s' [Hs' ->]].
+        assert (Hv1 : utf8_valid_from r1 0%nat = true).
+        { change (92 :: e :: r1) with ([92; e] ++ r1) in Hv.
+          rewrite utf8_valid_ascii_list in Hv; [exact Hv|].
+          repeat constructor; unfold esc_letter in He; lia. }
+        destruct (IH r1 s') as [items [w [E [Hi [-> Hw]]]]]; [simpl in *; lia|exact Hs'|exact Hv1|].
+        exists (IEsc e :: items), w. repeat split.
+        + cbn [flat_map item_bytes app]. rewrite E. reflexivity.
+        + constructor; [exact He|exact Hi].
+        + exact Hw. }
+    destruct (Z.ltb_spec c 32) as [L32|G32].
+    { cbn [str_loop] in H.
+      replace (c =? 34) with false in H by (symmetry; apply Z.eqb_neq; exact N34).
+      replace (c =? 92) with false in H by (symmetry; apply Z.eqb_neq; exact N92).
+      replace (c <? 32) with true in H by (symmetry; apply Z.ltb_lt; exact L32). discriminate. }
+    destruct (Z.ltb_spec c 128) as [L128|G128].
+    { rewrite str_loop_ascii in H by lia. destruct (pre_some_inv _ _ _ H) as [s' [Hs' ->]].
+      rewrite utf8_valid_ascii in Hv by exact L128.
+      destruct (IH rest s') as [items [w [E [Hi [-> Hw]]]]]; [lia|exact Hs'|exact Hv|].
+      exists (IRaw [c] :: items), w. repeat split.
+      - cbn [flat_map item_bytes app]. rewrite E. reflexivity.
+      - constructor; [|exact Hi]. simpl. apply Un_ascii; lia.
+      - exact Hw. }
+    rewrite str_loop_high in H by exact G128.
+    destruct (utf8_valid_step _ _ Hv) as [[Hc _]|[mb [more [E [Hm Hr]]]]]; [lia|].
+    assert (G := go_rune_len_multi mb more Hm). rewrite <- E in G. rewrite G in H.
+    destruct (Utf8Multi_cons _ Hm) as [c0 [t [Emb _]]]. subst mb. cbn [app] in E. inversion E; subst c0 rest.
+    cbn [length] in H. rewrite str_loop_pending in H. rewrite pre_pre in H. cbn [app] in H.
+    destruct (pre_some_inv _ _ _ H) as [s' [Hs' ->]].
+    destruct (IH more s') as [items [w [E' [Hi [-> Hw]]]]]; [rewrite app_length in Hn; lia|exact Hs'|exact Hr|].
+    exists (IRaw (c :: t) :: items), w. repeat split.
+    + cbn [flat_map item_bytes]. rewrite E'. rewrite <- app_assoc. reflexivity.
+    + constructor; [|exact Hi]. simpl. apply Un_multi. exact Hm.
+    + exact Hw.
+Qed.
+
+Theorem json_string_decode_sound tb s :
+  json_string_decode tb = Some s -> utf8_valid tb = true ->
+  exists core w, tb = core ++ w /\ WS w /\ StringLit core s.
+Proof.
+  unfold json_string_decode, utf8_valid. destruct tb as [|q r]; [discriminate|].
+  destruct q as [|p|p]; try discriminate.
+  repeat (destruct p as [p|p|]; try discriminate).
+  intros H Hv. change (Zpos 34%positive) with 34 in *.
+  rewrite utf8_valid_ascii in Hv by lia.
+  destruct (str_loop_sound_n (length r) r s (le_n _) H Hv) as [items [w [E [Hi [-> Hw]]]]].
+  exists (34 :: flat_map item_bytes items ++ [34]), w. split; [|split].
+  - rewrite E. cbn [app]. rewrite <- app_assoc. reflexivity.
+  - exact Hw.
+  - constructor. exact Hi.
+Qed.
+
+(* a decodable token ends with a quote followed by whitespace only *)
+Lemma str_loop_ends : forall bs p s, str_loop bs p = Some s ->
+  exists pfx w, bs = pfx ++ 34 :: w /\ forallb js_space w = true.
+Proof.
+  intros bs. remember (length bs) as n eqn:Hn. revert bs Hn.
+  induction n as [n IH] using lt_wf_ind. intros bs Hn p s H.
+  assert (Hrec : forall r q s', (length r < length bs)%nat -> str_loop r q = Some s' ->
+                   forall front, bs = front ++ r ->
+                   exists pfx w, bs = pfx ++ 34 :: w /\ forallb js_space w = true).
+  { intros r q s' Hl Hr front E. destruct (IH (length r)) with (bs := r) (p := q) (s := s') as [pfx [w [E1 E2]]];
+      [lia|reflexivity|exact Hr|]. exists (front ++ pfx), w. split; [rewrite E, E1, <- app_assoc; reflexivity|exact E2]. }
+  destruct bs as [|c rest]; [discriminate|].
+  destruct p as [|p].
+  - destruct (Z.eq_dec c 34) as [->|N34].
+    { rewrite str_loop_quote in H. destruct (forallb js_space rest) eqn:Ew; [|discriminate].
+      exists [], rest. split; [reflexivity|exact Ew]. }
+    destruct (Z.eq_dec c 92) as [->|N92].
+    { destruct rest as [|e r1]; [discriminate|].
+      destruct (Z.eq_dec e 117) as [->|N117].
+      - destruct (Nat.lt_ge_cases (length r1) 4) as [Hs|Hl].
+        { rewrite str_loop_u_short in H by exact Hs. discriminate. }
+        destruct r1 as [|h1 [|h2 [|h3 [|h4 r2]]]]; try (simpl in Hl; lia).
+        rewrite str_loop_u in H. destruct (getu4 h1 h2 h3 h4) as [rr|]; [|discriminate].
+        destruct (is_surrogate rr).
+        + destruct (pair_result r2 rr) as [[cp r3]|] eqn:Ep.
+          * destruct (pair_result_some_inv _ _ _ _ Ep) as [a [b [c [d [E2 _]]]]]. subst r2.
+            destruct (pre_some_inv _ _ _ H) as [s' [Hs' _]].
+            apply (Hrec r3 0%nat s' ltac:(simpl; lia) Hs' [92; 117; h1; h2; h3; h4; 92; 117; a; b; c; d] eq_refl).
+          * destruct (pre_some_inv _ _ _ H) as [s' [Hs' _]].
+            apply (Hrec r2 0%nat s' ltac:(simpl; lia) Hs' [92; 117; h1; h2; h3; h4] eq_refl).
+        + destruct (pre_some_inv _ _ _ H) as [s' [Hs' _]].
+          apply (Hrec r2 0%nat s' ltac:(simpl; lia) Hs' [92; 117; h1; h2; h3; h4] eq_refl).
+      - rewrite str_loop_esc in H by exact N117. destruct (simple_escape e); [|discriminate].
+        destruct (pre_some_inv _ _ _ H) as [s' [Hs' _]].
+        apply (Hrec r1 0%nat s' ltac:(simpl; lia) Hs' [92; e] eq_refl). }
+    destruct (Z.ltb_spec c 32) as [L32|G32].
+    { cbn [str_loop] in H.
+      replace (c =? 34) with false in H by (symmetry; apply Z.eqb_neq; exact N34).
+      replace (c =? 92) with false in H by (symmetry; apply Z.eqb_neq; exact N92).
+      replace (c <? 32) with true in H by (symmetry; apply Z.ltb_lt; exact L32). discriminate. }
+    destruct (Z.ltb_spec c 128) as [L128|G128].
+    { rewrite str_loop_ascii in H by lia. destruct (pre_some_inv _ _ _ H) as [s' [Hs' _]].
+      apply (Hrec rest 0%nat s' ltac:(simpl; lia) Hs' [c] eq_refl). }
+    rewrite str_loop_high in H by exact G128.
+    destruct (go_rune_len (c :: rest)) as [|k].
+    + destruct (pre_some_inv _ _ _ H) as [s' [Hs' _]].
+      apply (Hrec rest 0%nat s' ltac:(simpl; lia) Hs' [c] eq_refl).
+    + destruct (pre_some_inv _ _ _ H) as [s' [Hs' _]].
+      apply (Hrec rest k s' ltac:(simpl; lia) Hs' [c] eq_refl).
+  - cbn [str_loop] in H. destruct (pre_some_inv _ _ _ H) as [s' [Hs' _]].
+    apply (Hrec rest p s' ltac:(simpl; lia) Hs' [c] eq_refl).
+Qed.
+
+Lemma json_string_decode_ends tb s : json_string_decode tb = Some s ->
+  exists pfx w, tb = pfx ++ 34 :: w /\ forallb js_space w = true.
+Proof.
+  unfold json_string_decode. destruct tb as [|q r]; [discriminate|].
+  intro H. assert (H' : str_loop r 0%nat = Some s).
+  { destruct q as [|p|p]; try discriminate. repeat (destruct p as [p|p|]; try discriminate). exact H. }
+  destruct (str_loop_ends _ _ _ H') as [pfx [w [E Hw]]].
+  exists (q :: pfx), w. split; [rewrite E; reflexivity|exact Hw].
+Qed.
+
+(* ================================================================================== *)
+(* B. the structural parser and the token grammar                                       *)
+(* ================================================================================== *)
+
+(* JSON over scanner tokens; the leaves carry the validators of parseNumber /
+   parseString / parseKeyword.  TokE / TokM include the closing bracket. *)
+Inductive TokV : list jtoken -> jvalue -> Prop :=
+| TV_null t : tty t = TKeyword -> tbytes t = kw_null -> TokV [t] JNull
+| TV_true t : tty t = TKeyword -> tbytes t = kw_true -> TokV [t] (JBool true)
+| TV_false t : tty t = TKeyword -> tbytes t = kw_false -> TokV [t] (JBool false)
+| TV_num t m e : tty t = TNumber -> json_number_ok (tbytes t) = true ->
+    number_value (tbytes t) = (m, e) -> TokV [t] (JNum m e)
+| TV_str t s : tty t = TString -> json_string_decode (tbytes t) = Some s -> TokV [t] (JStr s)
+| TV_arr0 o c : tty o = TBrackO -> tty c = TBrackC -> TokV [o; c] (JArr [])
+| TV_arr o ts vs : tty o = TBrackO -> TokE ts vs -> TokV (o :: ts) (JArr vs)
+| TV_obj0 o c : tty o = TBraceO -> tty c = TBraceC -> TokV [o; c] (JObj [])
+| TV_obj o ts ms : tty o = TBraceO -> TokM ts ms -> TokV (o :: ts) (JObj ms)
+with TokE : list jtoken -> list jvalue -> Prop :=
+| TE_one ts v c : TokV ts v -> tty c = TBrackC -> TokE (ts ++ [c]) [v]
+| TE_cons ts v cm rest vs : TokV ts v -> tty cm = TComma -> TokE rest vs ->
+    TokE (ts ++ cm :: rest) (v :: vs)
+with TokM : list jtoken -> list (list Z * jvalue) -> Prop :=
+| TM_one kt k col ts v c : tty kt = TString -> json_string_decode (tbytes kt) = Some k ->
+    tty col = TColon -> TokV ts v -> tty c = TBraceC -> TokM (kt :: col :: ts ++ [c]) [(k, v)]
+| TM_cons kt k col ts v cm rest ms : tty kt = TString -> json_string_decode (tbytes kt) = Some k ->
+    tty col = TColon -> TokV ts v -> tty cm = TComma -> TokM rest ms ->
+    TokM (kt :: col :: ts ++ cm :: rest) ((k, v) :: ms).
+
+Scheme TokV_mut := Minimality for TokV Sort Prop
+  with TokE_mut := Minimality for TokE Sort Prop
+  with TokM_mut := Minimality for TokM Sort Prop.
+Combined Scheme tok_mutind from TokV_mut, TokE_mut, TokM_mut.
+
+Lemma jtype_eqb_eq a b : jtype_eqb a b = true <-> a = b.
+Proof. destruct a, b; unfold jtype_eqb; simpl; split; intro H; try reflexivity; try discriminate. Qed.
+
+Lemma jtype_eqb_neq a b : jtype_eqb a b = false <-> a <> b.
+Proof. apply bool_false_iff. apply jtype_eqb_eq. Qed.
+
+Lemma jtype_eqb_refl a : jtype_eqb a a = true.
+Proof. apply jtype_eqb_eq. reflexivity. Qed.
+
+Lemma read_cons t r : tty t <> TEOF -> read (t :: r) = Some (t, r).
+Proof.
+  intro H. unfold read, is_eof. replace (jtype_eqb (tty t) TEOF) with false; [reflexivity|].
+  symmetry. apply jtype_eqb_neq. exact H.
+Qed.
+
+(* first token of a value *)
+Definition vtype (ty : jtype) : Prop :=
+  ty = TKeyword \/ ty = TNumber \/ ty = TString \/ ty = TBrackO \/ ty = TBraceO.
+
+Lemma TokV_head ts v : TokV ts v -> exists t r, ts = t :: r /\ vtype (tty t).
+Proof.
+  intro H. destruct H; eexists; eexists; (split; [reflexivity|]); unfold vtype; tauto.
+Qed.
+
+Lemma TokE_head ts vs : TokE ts vs -> exists t r, ts = t :: r /\ vtype (tty t).
+Proof.
+  intro H. destruct H as [ts v c Hv _|ts v cm rest vs Hv _ _];
+    destruct (TokV_head _ _ Hv) as [t [r [-> Ht]]]; eexists; eexists; (split; [reflexivity|exact Ht]).
+Qed.
+
+Lemma TokM_head ts ms : TokM ts ms -> exists t r, ts = t :: r /\ tty t = TString.
+Proof. intro H. destruct H; eexists; eexists; (split; [reflexivity|assumption]). Qed.
+
+Definition nums_ok (ts : list jtoken) : Prop :=
+  Forall (fun t => tty t = TNumber -> big_parse_ok (tbytes t) = true) ts.
+
+Lemma nums_ok_app a b : nums_ok (a ++ b) <-> nums_ok a /\ nums_ok b.
+Proof. apply Forall_app. Qed.
+
+Lemma nums_ok_cons t r : nums_ok (t :: r) <-> (tty t = TNumber -> big_parse_ok (tbytes t) = true) /\ nums_ok r.
+Proof. unfold nums_ok. split; intro H; [inversion H; subst; tauto|constructor; tauto]. Qed.
+
+(* ---- completeness: the parser accepts every token sequence of the grammar -------- *)
+
+Lemma vtype_not ty : vtype ty -> ty <> TBrackC /\ ty <> TBraceC /\ ty <> TEOF.
+Proof. unfold vtype. intro H. repeat split; intro E; subst; destruct H as [H|[H|[H|[H|H]]]]; discriminate. Qed.
+
+Lemma parse_value_string f t r s : tty t = TString -> json_string_decode (tbytes t) = Some s ->
+  parse_value (S f) (t :: r) = Res (JStr s) [] r.
+Proof.
+  intros Ht Hd. cbn [parse_value]. rewrite Ht. unfold parse_string.
+  rewrite read_cons by (rewrite Ht; discriminate). rewrite Hd. reflexivity.
+Qed.
+
+Lemma parse_complete :
+  (forall ts v, TokV ts v -> forall more f, nums_ok ts -> (f > length ts)%nat ->
+     parse_value f (ts ++ more) = Res v [] more) /\
+  (forall ts vs, TokE ts vs -> forall more f g acc, nums_ok ts -> (f > length ts)%nat -> (g >= length ts)%nat ->
+     arr_loop (parse_value f) g (ts ++ more) acc [] = Res (Some (JArr (acc ++ vs))) [] more) /\
+  (forall ts ms, TokM ts ms -> forall more f g acc, nums_ok ts -> (f > length ts)%nat -> (g >= length ts)%nat ->
+     obj_loop (parse_value f) g (ts ++ more) acc [] = Res (Some (JObj (acc ++ ms))) [] more).
+Proof.
+  apply tok_mutind.
+  - (* null *) intros t Ht Hb more f _ Hf. destruct f as [|f]; [simpl in Hf; lia|].
+    cbn [app parse_value]. rewrite Ht. unfold parse_keyword. rewrite read_cons by (rewrite Ht; discriminate).
+    rewrite Hb. reflexivity.
+  - intros t Ht Hb more f _ Hf. destruct f as [|f]; [simpl in Hf; lia|].
+    cbn [app parse_value]. rewrite Ht. unfold parse_keyword. rewrite read_cons by (rewrite Ht; discriminate).
+    rewrite Hb. reflexivity.
+  - intros t Ht Hb more f _ Hf. destruct f as [|f]; [simpl in Hf; lia|].
+    cbn [app parse_value]. rewrite Ht. unfold parse_keyword. rewrite read_cons by (rewrite Ht; discriminate).
+    rewrite Hb. reflexivity.
+  - (* number *) intros t m e Ht Hok Hval more f Hn Hf. destruct f as [|f]; [simpl in Hf; lia|].
+    cbn [app parse_value]. rewrite Ht. unfold parse_number. rewrite read_cons by (rewrite Ht; discriminate).
+    rewrite Hok. apply nums_ok_cons in Hn. rewrite (proj1 Hn Ht). rewrite Hval. reflexivity.
+  - (* string *) intros t s Ht Hd more f _ Hf. destruct f as [|f]; [simpl in Hf; lia|].
+    cbn [app parse_value]. rewrite Ht. unfold parse_string. rewrite read_cons by (rewrite Ht; discriminate).
+    rewrite Hd. reflexivity.
+  - (* [] *) intros o c Ho Hc more f _ Hf. destruct f as [|f]; [simpl in Hf; lia|].
+    cbn [app parse_value]. rewrite Ho. unfold parse_array. rewrite read_cons by (rewrite Ho; discriminate).
+    cbn [arr_loop]. rewrite Hc. rewrite jtype_eqb_refl. rewrite read_cons by (rewrite Hc; discriminate).
+    reflexivity.
+  - (* [ ... ] *) intros o ts vs Ho He IH more f Hn Hf. destruct f as [|f]; [simpl in Hf; lia|].
+    cbn [app parse_value]. rewrite Ho. unfold parse_array. rewrite read_cons by (rewrite Ho; discriminate).
+    apply nums_ok_cons in Hn. rewrite IH; [reflexivity|apply Hn|simpl in Hf; lia|rewrite app_length; lia].
+  - (* {} *) intros o c Ho Hc more f _ Hf. destruct f as [|f]; [simpl in Hf; lia|].
+    cbn [app parse_value]. rewrite Ho. unfold parse_object. rewrite read_cons by (rewrite Ho; discriminate).
+    cbn [obj_loop]. rewrite Hc. rewrite jtype_eqb_refl. rewrite read_cons by (rewrite Hc; discriminate).
+    reflexivity.
+  - (* { ... } *) intros o ts ms Ho Hm IH more f Hn Hf. destruct f as [|f]; [simpl in Hf; lia|].
+    cbn [app parse_value]. rewrite Ho. unfold parse_object. rewrite read_cons by (rewrite Ho; discriminate).
+    apply nums_ok_cons in Hn. rewrite IH; [reflexivity|apply Hn|simpl in Hf; lia|rewrite app_length; lia].
+  - (* last element *)
+    intros ts v c Hv IH Hc more f g acc Hn Hf Hg. rewrite app_length in Hf, Hg. simpl in Hf, Hg.
+    destruct g as [|g]; [lia|]. apply nums_ok_app in Hn. destruct Hn as [Hn1 _].
+    destruct (TokV_head _ _ Hv) as [t0 [r0 [E0 Ht0]]]. destruct (vtype_not _ Ht0) as [N1 _].
+    rewrite <- app_assoc. cbn [arr_loop]. rewrite E0 at 1. cbn [app].
+    replace (jtype_eqb (tty t0) TBrackC) with false by (symmetry; apply jtype_eqb_neq; exact N1).
+    rewrite <- ?E0. rewrite (IH _ f Hn1) by lia. cbn [app]. rewrite Hc.
+    rewrite read_cons by (rewrite Hc; discriminate). reflexivity.
+  - (* more elements *)
+    intros ts v cm rest vs Hv IHv Hcm He IHe more f g acc Hn Hf Hg. rewrite app_length in Hf, Hg. simpl in Hf, Hg.
+    destruct g as [|g]; [lia|]. apply nums_ok_app in Hn. destruct Hn as [Hn1 Hn2]. apply nums_ok_cons in Hn2.
+    destruct (TokV_head _ _ Hv) as [t0 [r0 [E0 Ht0]]]. destruct (vtype_not _ Ht0) as [N1 _].
+    destruct (TokE_head _ _ He) as [t1 [r1 [E1 Ht1]]]. destruct (vtype_not _ Ht1) as [N2 _].
+    rewrite <- app_assoc. cbn [arr_loop]. rewrite E0 at 1. cbn [app].
+    replace (jtype_eqb (tty t0) TBrackC) with false by (symmetry; apply jtype_eqb_neq; exact N1).
+    rewrite <- ?E0. rewrite (IHv _ f Hn1) by lia. cbn [app]. rewrite Hcm.
+    rewrite read_cons by (rewrite Hcm; discriminate). rewrite E1 at 1. cbn [app].
+    replace (jtype_eqb (tty t1) TBrackC) with false by (symmetry; apply jtype_eqb_neq; exact N2).
+    rewrite <- ?E1.
+    rewrite (IHe more f g (acc ++ [v])); [|apply Hn2|lia|lia].
+    rewrite <- app_assoc. reflexivity.
+  - (* last member *)
+    intros kt k col ts v c Hkt Hk Hcol Hv IH Hc more f g acc Hn Hf Hg. simpl in Hf, Hg.
+    rewrite app_length in Hf, Hg. simpl in Hf, Hg.
+    destruct g as [|g]; [lia|]. destruct f as [|f']; [lia|].
+    apply nums_ok_cons in Hn. destruct Hn as [_ Hn]. apply nums_ok_cons in Hn. destruct Hn as [_ Hn].
+    apply nums_ok_app in Hn. destruct Hn as [Hn1 _].
+    cbn [app obj_loop]. rewrite Hkt. replace (jtype_eqb TString TBraceC) with false by reflexivity.
+    rewrite (parse_value_string f' kt _ k Hkt Hk). cbn [app]. rewrite read_cons by (rewrite Hcol; discriminate).
+    rewrite Hcol. rewrite jtype_eqb_refl. cbn [negb].
+    rewrite <- app_assoc. rewrite (IH _ (S f') Hn1) by lia. cbn [app]. rewrite Hc.
+    rewrite read_cons by (rewrite Hc; discriminate). reflexivity.
+  - (* more members *)
+    intros kt k col ts v cm rest ms Hkt Hk Hcol Hv IHv Hcm Hm IHm more f g acc Hn Hf Hg. simpl in Hf, Hg.
+    rewrite app_length in Hf, Hg. simpl in Hf, Hg.
+    destruct g as [|g]; [lia|]. destruct f as [|f']; [lia|].
+    apply nums_ok_cons in Hn. destruct Hn as [_ Hn]. apply nums_ok_cons in Hn. destruct Hn as [_ Hn].
+    apply nums_ok_app in Hn. destruct Hn as [Hn1 Hn2]. apply nums_ok_cons in Hn2.
+    destruct (TokM_head _ _ Hm) as [t1 [r1 [E1 Ht1]]].
+    cbn [app obj_loop]. rewrite Hkt. replace (jtype_eqb TString TBraceC) with false by reflexivity.
+    rewrite (parse_value_string f' kt _ k Hkt Hk). cbn [app]. rewrite read_cons by (rewrite Hcol; discriminate).
+    rewrite Hcol. rewrite jtype_eqb_refl. cbn [negb].
+    rewrite <- app_assoc. rewrite (IHv _ (S f') Hn1) by lia. cbn [app]. rewrite Hcm.
+    rewrite read_cons by (rewrite Hcm; discriminate). rewrite E1 at 1. cbn [app].
+    rewrite Ht1. replace (jtype_eqb TString TBraceC) with false by reflexivity.
+    rewrite <- ?E1.
+    rewrite (IHm more (S f') g (acc ++ [(k, v)])); [|apply Hn2|lia|lia].
+    rewrite <- app_assoc. reflexivity.
+Qed.
+
+(* ---- soundness: what the parser accepts is in the token grammar --------------------- *)
+
+Lemma app_single_not_nil {A} (l : list A) (x : A) : l ++ [x] = [] -> False.
+Proof. destruct l; discriminate. Qed.
+
+Lemma after_recover_res o d o' ds rest : after_recover o d = Res o' ds rest -> ds = d /\ o' = None.
+Proof.
+  unfold after_recover. destruct o as [[|t r]|]; try discriminate. intro H; inversion H. split; reflexivity.
+Qed.
+
+(* an error exit cannot produce the empty diagnostics list *)
+Ltac absurd_exit H :=
+  first
+  [ discriminate H
+  | apply after_recover_res in H; destruct H as [H _]; exfalso; eapply app_single_not_nil; symmetry; exact H
+  | inversion H; exfalso; eapply app_single_not_nil; eassumption
+  | inversion H; exfalso; eapply app_single_not_nil; symmetry; eassumption ].
+
+Section LoopSound.
+  Variable pv : list jtoken -> pres jvalue.
+  Hypothesis pv_sound : forall ts v rest, pv ts = Res v [] rest ->
+    exists pre, ts = pre ++ rest /\ TokV pre v.
+
+  Lemma arr_loop_sound : forall g ts acc ds o rest,
+    arr_loop pv g ts acc ds = Res o [] rest ->
+    ds = [] /\ exists pre vs, ts = pre ++ rest /\ o = Some (JArr (acc ++ vs)) /\
+      ((vs = [] /\ exists c, pre = [c] /\ tty c = TBrackC) \/ TokE pre vs).
+  Proof.
+    induction g as [|g IH]; intros ts acc ds o rest H; [discriminate|].
+    cbn [arr_loop] in H. destruct ts as [|t0 r0]; [discriminate|].
+    destruct (jtype_eqb (tty t0) TBrackC) eqn:E0.
+    { apply jtype_eqb_eq in E0. rewrite read_cons in H by (rewrite E0; discriminate).
+      inversion H; subst. split; [reflexivity|]. exists [t0], []. rewrite app_nil_r.
+      repeat split. left. split; [reflexivity|]. exists t0. split; [reflexivity|exact E0]. }
+    destruct (pv (t0 :: r0)) as [v vd ts1| |] eqn:Ev; try discriminate.
+    destruct ts1 as [|t1 r1]; [discriminate|].
+    destruct (tty t1) eqn:Et1;
+      try (destruct (read (t1 :: r1)) as [[t ts2]|]; [|discriminate]; absurd_exit H).
+    - (* closing bracket *)
+      rewrite read_cons in H by (rewrite Et1; discriminate). inversion H; subst.
+      match goal with Hd : ds ++ vd = [] |- _ => apply app_eq_nil in Hd; destruct Hd as [-> ->] end.
+      destruct (pv_sound _ _ _ Ev) as [pre [E Hv]]. split; [reflexivity|].
+      exists (pre ++ [t1]), [v]. repeat split.
+      + rewrite E. rewrite <- app_assoc. reflexivity.
+      + right. apply TE_one; assumption.
+    - (* comma *)
+      rewrite read_cons in H by (rewrite Et1; discriminate).
+      destruct r1 as [|t2 r2]; [discriminate|].
+      destruct (jtype_eqb (tty t2) TBrackC) eqn:E2; [absurd_exit H|].
+      destruct (IH _ _ _ _ _ H) as [Hd [pre' [vs' [E' [Ho Hcase]]]]].
+      apply app_eq_nil in Hd. destruct Hd as [-> ->].
+      destruct (pv_sound _ _ _ Ev) as [pre [E Hv]]. split; [reflexivity|].
+      destruct Hcase as [[-> [c [-> Hc]]]|He].
+      + cbn [app] in E'. inversion E'; subst. apply jtype_eqb_neq in E2. contradiction.
+      + exists (pre ++ t1 :: pre'), (v :: vs'). repeat split.
+        * rewrite E, E'. rewrite <- app_assoc. reflexivity.
+        * rewrite Ho. rewrite <- app_assoc. reflexivity.
+        * right. apply TE_cons; assumption.
+    - (* EOF *)
+      destruct (read (t1 :: r1)) as [[t ts2]|]; [|discriminate].
+      destruct (arr_recover t ts2 1); [absurd_exit H|discriminate].
+  Qed.
+
+  Lemma obj_loop_sound : forall g ts acc ds o rest,
+    obj_loop pv g ts acc ds = Res o [] rest ->
+    ds = [] /\ exists pre ms, ts = pre ++ rest /\ o = Some (JObj (acc ++ ms)) /\
+      ((ms = [] /\ exists c, pre = [c] /\ tty c = TBraceC) \/ TokM pre ms).
+  Proof.
+    induction g as [|g IH]; intros ts acc ds o rest H; [discriminate|].
+    cbn [obj_loop] in H. destruct ts as [|t0 r0]; [discriminate|].
+    destruct (jtype_eqb (tty t0) TBraceC) eqn:E0.
+    { apply jtype_eqb_eq in E0. rewrite read_cons in H by (rewrite E0; discriminate).
+      inversion H; subst. split; [reflexivity|]. exists [t0], []. rewrite app_nil_r.
+      repeat split. left. split; [reflexivity|]. exists t0. split; [reflexivity|exact E0]. }
+    destruct (pv (t0 :: r0)) as [key kd ts1| |] eqn:Ek; try discriminate.
+    destruct key as [| | |k| | |]; try absurd_exit H.
+    destruct ts1 as [|colon rc]; [discriminate|].
+    change (read (colon :: rc)) with (Some (colon, if is_eof colon then colon :: rc else rc)) in H. cbv iota beta in H.
+    destruct (jtype_eqb (tty colon) TColon) eqn:Ec; cbn [negb] in H; [|absurd_exit H].
+    apply jtype_eqb_eq in Ec.
+    replace (is_eof colon) with false in H by (unfold is_eof; rewrite Ec; reflexivity).
+    destruct (pv rc) as [v vd ts3| |] eqn:Ev; try discriminate.
+    destruct ts3 as [|t3 r3]; [discriminate|].
+    (* the key and the value were parsed without diagnostics, once we know the end result *)
+    assert (Hfin : forall pre_rest ms',
+      ds ++ kd = [] -> vd = [] ->
+      t3 :: r3 = pre_rest ++ rest ->
+      (TokV (firstn 0 []) JNull -> False) \/ True ->
+      forall (Hbuild : forall pk pv', TokV pk (JStr k) -> TokV pv' v ->
+                 t0 :: r0 = pk ++ colon :: pv' ++ pre_rest ++ rest ->
+                 TokM (pk ++ colon :: pv' ++ pre_rest) ms'),
+      exists pre ms, t0 :: r0 = pre ++ rest /\ Some (JObj (acc ++ ms')) = Some (JObj (acc ++ ms)) /\
+        ((ms = [] /\ exists c, pre = [c] /\ tty c = TBraceC) \/ TokM pre ms)).
+    { intros pre_rest ms' Hd Hvd E3 _ Hbuild. apply app_eq_nil in Hd. destruct Hd as [-> ->]. subst vd.
+      destruct (pv_sound _ _ _ Ek) as [pk [Ek' Hk]]. destruct (pv_sound _ _ _ Ev) as [pv' [Ev' Hv]].
+      assert (E : t0 :: r0 = pk ++ colon :: pv' ++ pre_rest ++ rest).
+      { rewrite Ek', Ev', E3. reflexivity. }
+      exists (pk ++ colon :: pv' ++ pre_rest), ms'. repeat split.
+      - rewrite E. rewrite <- app_assoc. cbn [app]. rewrite <- app_assoc. reflexivity.
+      - right. apply Hbuild; assumption. }
+    destruct (tty t3) eqn:Et3;
+      try (destruct (read (t3 :: r3)) as [[t ts4]|]; [|discriminate]; absurd_exit H).
+    - (* closing brace *)
+      rewrite read_cons in H by (rewrite Et3; discriminate). injection H as Ho Hd Hr. subst o rest.
+      apply app_eq_nil in Hd; destruct Hd as [Hd1 Hd2].
+      split; [apply app_eq_nil in Hd1; tauto|].
+      apply (Hfin [t3] [(k, v)] Hd1 Hd2 eq_refl (or_intror I)).
+      intros pk pv' Hk Hv _. inversion Hk; subst. cbn [app].
+      change (pv' ++ [t3]) with (pv' ++ [t3]). apply TM_one; assumption.
+    - (* bracket instead of brace *)
+      destruct (read (t3 :: r3)) as [[t [|t4 ts4]]|]; try discriminate. absurd_exit H.
+    - (* comma *)
+      rewrite read_cons in H by (rewrite Et3; discriminate).
+      destruct r3 as [|t4 r4]; [discriminate|].
+      destruct (jtype_eqb (tty t4) TBraceC) eqn:E4; [absurd_exit H|].
+      destruct (IH _ _ _ _ _ H) as [Hd [pre' [ms' [E' [Ho Hcase]]]]].
+      apply app_eq_nil in Hd. destruct Hd as [Hd1 Hd2].
+      split; [apply app_eq_nil in Hd1; tauto|].
+      destruct Hcase as [[-> [c [-> Hc]]]|Hm].
+      + cbn [app] in E'. inversion E'; subst. apply jtype_eqb_neq in E4. contradiction.
+      + rewrite Ho. rewrite <- app_assoc. cbn [app].
+        apply (Hfin (t3 :: pre') ((k, v) :: ms') Hd1 Hd2); [rewrite E'; reflexivity|right; exact I|].
+        intros pk pv' Hk Hv _. inversion Hk; subst. cbn [app]. apply TM_cons; assumption.
+    - (* EOF *) absurd_exit H.
+  Qed.
+End LoopSound.
+
+Lemma wrap_invalid_res r v ds rest : wrap_invalid r = Res v ds rest ->
+  exists o, r = Res o ds rest /\ v = match o with Some n => n | None => JInvalid end.
+Proof.
+  destruct r as [[n|] ds' rest'| |]; simpl; intro H; inversion H; subst; eexists; split; reflexivity.
+Qed.
+
+Lemma parse_sound : forall f ts v rest, parse_value f ts = Res v [] rest ->
+  exists pre, ts = pre ++ rest /\ TokV pre v.
+Proof.
+  induction f as [|f IH]; intros ts v rest H; [discriminate|].
+  cbn [parse_value] in H. destruct ts as [|tok r]; [discriminate|].
+  destruct (tty tok) eqn:Et; try discriminate.
+  - (* object *)
+    apply wrap_invalid_res in H. destruct H as [o [H ->]]. unfold parse_object in H.
+    rewrite read_cons in H by (rewrite Et; discriminate).
+    destruct (obj_loop_sound _ IH _ _ _ _ _ _ H) as [_ [pre [ms [E [-> Hcase]]]]]. cbn [app].
+    exists (tok :: pre). split; [rewrite E; reflexivity|].
+    destruct Hcase as [[-> [c [-> Hc]]]|Hm]; [apply TV_obj0; assumption|apply TV_obj; assumption].
+  - (* array *)
+    apply wrap_invalid_res in H. destruct H as [o [H ->]]. unfold parse_array in H.
+    rewrite read_cons in H by (rewrite Et; discriminate).
+    destruct (arr_loop_sound _ IH _ _ _ _ _ _ H) as [_ [pre [vs [E [-> Hcase]]]]]. cbn [app].
+    exists (tok :: pre). split; [rewrite E; reflexivity|].
+    destruct Hcase as [[-> [c [-> Hc]]]|Hm]; [apply TV_arr0; assumption|apply TV_arr; assumption].
+  - (* keyword *)
+    apply wrap_invalid_res in H. destruct H as [o [H ->]]. unfold parse_keyword in H.
+    rewrite read_cons in H by (rewrite Et; discriminate).
+    destruct (zlist_eqb (tbytes tok) [116; 114; 117; 101]) eqn:E1.
+    { inversion H; subst. apply zlist_eqb_eq in E1. exists [tok]. split; [reflexivity|apply TV_true; assumption]. }
+    destruct (zlist_eqb (tbytes tok) [102; 97; 108; 115; 101]) eqn:E2.
+    { inversion H; subst. apply zlist_eqb_eq in E2. exists [tok]. split; [reflexivity|apply TV_false; assumption]. }
+    destruct (zlist_eqb (tbytes tok) [110; 117; 108; 108]) eqn:E3; [|discriminate].
+    inversion H; subst. apply zlist_eqb_eq in E3. exists [tok]. split; [reflexivity|apply TV_null; assumption].
+  - (* string *)
+    apply wrap_invalid_res in H. destruct H as [o [H ->]]. unfold parse_string in H.
+    rewrite read_cons in H by (rewrite Et; discriminate).
+    destruct (json_string_decode (tbytes tok)) as [s|] eqn:Ed; [|discriminate].
+    inversion H; subst. exists [tok]. split; [reflexivity|apply TV_str; assumption].
+  - (* number *)
+    apply wrap_invalid_res in H. destruct H as [o [H ->]]. unfold parse_number in H.
+    rewrite read_cons in H by (rewrite Et; discriminate).
+    destruct (json_number_ok (tbytes tok)) eqn:En; cbn [negb] in H; [|discriminate].
+    destruct (big_parse_ok (tbytes tok)) eqn:Eb; cbn [negb] in H; [|discriminate].
+    destruct (number_value (tbytes tok)) as [m e] eqn:Ev. inversion H; subst.
+    exists [tok]. split; [reflexivity|apply TV_num; assumption].
+Qed.
+
+(* ================================================================================== *)
+(* C. acceptance                                                                        *)
+(* ================================================================================== *)
+
+(* ---- C1. a JSON text scans to a token sequence of the grammar ----------------------- *)
+
+Lemma sc_ws_is_ws b : sc_ws b = is_ws b.
+Proof. unfold sc_ws, is_ws. bdec. Qed.
+
+Lemma scan_punct c ty rest off f tsr off' :
+  punct_type c = Some ty -> off' = off + 1 ->
+  jscan_fuel f off' rest = Some tsr ->
+  jscan_fuel (S f) off (c :: rest) = Some (mkTok ty [c] off off' :: tsr).
+Proof.
+  intros Hp -> Hs. rewrite (jscan_tok f off (c :: rest) ty [c] rest (next_token_punct _ _ _ Hp)).
+  - rewrite zlen_cons, zlen_nil. replace (off + (1 + 0)) with (off + 1) by lia. rewrite Hs. reflexivity.
+  - simpl. unfold punct_type in Hp. unfold sc_ws.
+    repeat match type of Hp with (if ?a =? ?b then _ else _) = _ =>
+      destruct (Z.eqb_spec a b); [subst; reflexivity|] end. discriminate.
+Qed.
+
+Lemma scan_ws w r off f ts off' :
+  WS w -> head_fails sc_ws r -> off' = off + zlen w ->
+  jscan_fuel f off' r = Some ts -> jscan_fuel f off (w ++ r) = Some ts.
+Proof. intros Hw Hr -> Hs. rewrite jscan_skip_ws; [exact Hs|apply sc_WS_WS; exact Hw|exact Hr]. Qed.
+
+Lemma scan_token r ty tb rest off f tsr off' :
+  next_token r = Some (ty, tb, rest) -> head_fails sc_ws r -> off' = off + zlen tb ->
+  jscan_fuel f off' rest = Some tsr ->
+  jscan_fuel (S f) off r = Some (mkTok ty tb off off' :: tsr).
+Proof. intros Hn Hr -> Hs. rewrite (jscan_tok f off r ty tb rest Hn Hr). rewrite Hs. reflexivity. Qed.
+
+Lemma follow_heads rest : follow_ok rest ->
+  head_fails number_byte rest /\ head_fails keyword_byte rest.
+Proof.
+  destruct rest as [|b r]; simpl; [tauto|]. unfold ws_byte.
+  intros [[->|[->|[->| ->]]]|[->|[->| ->]]]; split; reflexivity.
+Qed.
+
+Lemma value_head_nows bs v rest : Value bs v -> head_fails sc_ws (bs ++ rest).
+Proof.
+  intro H. destruct (Value_head _ _ H) as [b [r [-> Hb]]]. simpl. rewrite sc_ws_is_ws. apply vhead_nows. exact Hb.
+Qed.
+
+Lemma string_head_nows bs s rest : StringLit bs s -> head_fails sc_ws (bs ++ rest).
+Proof. intro H. destruct (StringLit_head _ _ H) as [r ->]. reflexivity. Qed.
+
+Lemma digits_number_bytes ds : Forall digit ds -> forallb number_byte ds = true.
+Proof.
+  induction 1 as [|d ds Hd _ IH]; [reflexivity|]. simpl. rewrite IH, andb_true_r.
+  unfold number_byte. replace (sc_digit d) with true by (symmetry; apply sc_digit_true; exact Hd).
+  rewrite !orb_true_r. reflexivity.
+Qed.
+
+Lemma Number_bytes nb m e : Number nb m e -> forallb number_byte nb = true.
+Proof.
+  assert (Hf : forall fp fds, FracPart fp fds -> forallb number_byte fp = true).
+  { intros fp fds [|d ds Hds]; [reflexivity|]. change (46 :: d :: ds) with ([46] ++ d :: ds).
+    rewrite forallb_app. rewrite (digits_number_bytes _ Hds). reflexivity. }
+  assert (He : forall ep x, ExpPart ep x -> forallb number_byte ep = true).
+  { intros ep x [|c d ds Hc Hds|c d ds Hc Hds|c d ds Hc Hds]; [reflexivity| | |].
+    - change (c :: d :: ds) with ([c] ++ d :: ds). rewrite forallb_app, (digits_number_bytes _ Hds).
+      destruct Hc as [->| ->]; reflexivity.
+    - change (c :: 43 :: d :: ds) with ([c; 43] ++ d :: ds). rewrite forallb_app, (digits_number_bytes _ Hds).
+      destruct Hc as [->| ->]; reflexivity.
+    - change (c :: 45 :: d :: ds) with ([c; 45] ++ d :: ds). rewrite forallb_app, (digits_number_bytes _ Hds).
+      destruct Hc as [->| ->]; reflexivity. }
+  intros [ip fp fds ep x Hi Hfr Hex|ip fp fds ep x Hi Hfr Hex].
+  - rewrite !forallb_app. rewrite (digits_number_bytes _ (IntPart_digits _ Hi)), (Hf _ _ Hfr), (He _ _ Hex). reflexivity.
+  - change (45 :: ip ++ fp ++ ep) with ([45] ++ ip ++ fp ++ ep). rewrite !forallb_app.
+    rewrite (digits_number_bytes _ (IntPart_digits _ Hi)), (Hf _ _ Hfr), (He _ _ Hex). reflexivity.
+Qed.
+
+Ltac zl := repeat (first [rewrite zlen_app | rewrite zlen_cons | rewrite zlen_nil]); lia.
+
+Lemma scan_complete :
+  (forall bs v, Value bs v -> forall rest off f tsr, follow_ok rest -> has_prepend (bs ++ rest) = false ->
+     jscan_fuel f (off + zlen bs) rest = Some tsr ->
+     exists ts f', jscan_fuel f' off (bs ++ rest) = Some (ts ++ tsr) /\ TokV ts v) /\
+  (forall bs vs, Elements bs vs -> forall rest off f tsr, has_prepend (bs ++ 93 :: rest) = false ->
+     jscan_fuel f (off + zlen bs + 1) rest = Some tsr ->
+     exists ts f', jscan_fuel f' off (bs ++ 93 :: rest) = Some (ts ++ tsr) /\ TokE ts vs) /\
+  (forall bs ms, Members bs ms -> forall rest off f tsr, has_prepend (bs ++ 125 :: rest) = false ->
+     jscan_fuel f (off + zlen bs + 1) rest = Some tsr ->
+     exists ts f', jscan_fuel f' off (bs ++ 125 :: rest) = Some (ts ++ tsr) /\ TokM ts ms).
+Proof.
+  apply json_mutind.
+  - (* null *)
+    intros rest off f tsr Hfo _ Hs. destruct (follow_heads _ Hfo) as [_ Hk].
+    eexists [_], (S f). split.
+    + apply (scan_token _ TKeyword kw_null rest); try exact Hs; try reflexivity.
+      apply (next_token_keyword 110 [117; 108; 108]); [lia|reflexivity|exact Hk].
+    + apply TV_null; reflexivity.
+  - intros rest off f tsr Hfo _ Hs. destruct (follow_heads _ Hfo) as [_ Hk].
+    eexists [_], (S f). split.
+    + apply (scan_token _ TKeyword kw_true rest); try exact Hs; try reflexivity.
+      apply (next_token_keyword 116 [114; 117; 101]); [lia|reflexivity|exact Hk].
+    + apply TV_true; reflexivity.
+  - intros rest off f tsr Hfo _ Hs. destruct (follow_heads _ Hfo) as [_ Hk].
+    eexists [_], (S f). split.
+    + apply (scan_token _ TKeyword kw_false rest); try exact Hs; try reflexivity.
+      apply (next_token_keyword 102 [97; 108; 115; 101]); [lia|reflexivity|exact Hk].
+    + apply TV_false; reflexivity.
+  - (* number *)
+    intros bs m e Hn rest off f tsr Hfo _ Hs. destruct (follow_heads _ Hfo) as [Hnb _].
+    pose proof (Number_bytes _ _ _ Hn) as Hb. pose proof (value_head_nows _ _ rest (V_num _ _ _ Hn)) as Hh.
+    destruct (Number_head _ _ _ Hn) as [b [r [E Hb0]]].
+    eexists [_], (S f). split.
+    + apply (scan_token _ TNumber bs rest); try assumption; try reflexivity; try eassumption.
+      subst bs. apply next_token_number; [unfold digit in Hb0; tauto|exact Hb|exact Hnb].
+    + apply TV_num; [reflexivity|apply (json_number_ok_complete _ _ _ Hn)|apply number_value_complete; exact Hn].
+  - (* string *)
+    intros bs s Hstr rest off f tsr _ Hp Hs.
+    pose proof (string_head_nows _ _ rest Hstr) as Hh. pose proof (json_string_decode_complete _ _ Hstr) as Hd.
+    destruct Hstr as [items Hi].
+    eexists [_], (S f). split.
+    + apply (scan_token _ TString (34 :: flat_map item_bytes items ++ [34]) rest); try assumption; try reflexivity; try eassumption.
+      apply next_token_string; [exact Hi|].
+      cbn [app] in Hp. rewrite <- app_assoc in Hp. cbn [app] in Hp.
+      destruct (has_prepend_cons _ _ Hp) as [_ Hp']. exact Hp'.
+    + apply TV_str; [reflexivity|exact Hd].
+  - (* [] *)
+    intros w Hw rest off f tsr _ _ Hs.
+    eexists [_; _], (S (S f)). split.
+    + cbn [app]. rewrite <- app_assoc. cbn [app].
+      apply (scan_punct 91 TBrackO); [reflexivity|reflexivity|].
+      apply (scan_ws w (93 :: rest) (off + 1) (S f) _ (off + 1 + zlen w) Hw); [reflexivity|reflexivity|].
+      apply (scan_punct 93 TBrackC); [reflexivity|reflexivity|].
+      replace (off + 1 + zlen w + 1) with (off + zlen (91 :: w ++ [93])) by zl. exact Hs.
+    + apply TV_arr0; reflexivity.
+  - (* [ ... ] *)
+    intros bs vs He IH rest off f tsr _ Hp Hs.
+    cbn [app] in *. rewrite <- app_assoc in *. cbn [app] in *.
+    destruct (has_prepend_cons _ _ Hp) as [_ Hp'].
+    destruct (IH rest (off + 1) f tsr Hp') as [ts [f' [H1 H2]]].
+    { replace (off + 1 + zlen bs + 1) with (off + zlen (91 :: bs ++ [93])) by zl. exact Hs. }
+    eexists (_ :: ts), (S f'). split.
+    + cbn [app]. apply (scan_punct 91 TBrackO); [reflexivity|reflexivity|exact H1].
+    + apply TV_arr; [reflexivity|exact H2].
+  - (* {} *)
+    intros w Hw rest off f tsr _ _ Hs.
+    eexists [_; _], (S (S f)). split.
+    + cbn [app]. rewrite <- app_assoc. cbn [app].
+      apply (scan_punct 123 TBraceO); [reflexivity|reflexivity|].
+      apply (scan_ws w (125 :: rest) (off + 1) (S f) _ (off + 1 + zlen w) Hw); [reflexivity|reflexivity|].
+      apply (scan_punct 125 TBraceC); [reflexivity|reflexivity|].
+      replace (off + 1 + zlen w + 1) with (off + zlen (123 :: w ++ [125])) by zl. exact Hs.
+    + apply TV_obj0; reflexivity.
+  - (* { ... } *)
+    intros bs ms Hm IH rest off f tsr _ Hp Hs.
+    cbn [app] in *. rewrite <- app_assoc in *. cbn [app] in *.
+    destruct (has_prepend_cons _ _ Hp) as [_ Hp'].
+    destruct (IH rest (off + 1) f tsr Hp') as [ts [f' [H1 H2]]].
+    { replace (off + 1 + zlen bs + 1) with (off + zlen (123 :: bs ++ [125])) by zl. exact Hs. }
+    eexists (_ :: ts), (S f'). split.
+    + cbn [app]. apply (scan_punct 123 TBraceO); [reflexivity|reflexivity|exact H1].
+    + apply TV_obj; [reflexivity|exact H2].
+  - (* one element *)
+    intros w1 bs w2 v Hw1 Hv IH Hw2 rest off f tsr Hp Hs.
+    rewrite <- !app_assoc in *.
+    assert (S3 : jscan_fuel (S f) (off + zlen w1 + zlen bs + zlen w2) (93 :: rest)
+                 = Some (mkTok TBrackC [93] (off + zlen w1 + zlen bs + zlen w2) (off + zlen w1 + zlen bs + zlen w2 + 1) :: tsr)).
+    { apply (scan_punct 93 TBrackC); [reflexivity|reflexivity|].
+      replace (off + zlen w1 + zlen bs + zlen w2 + 1) with (off + zlen (w1 ++ bs ++ w2) + 1) by zl. exact Hs. }
+    assert (S2 := scan_ws w2 (93 :: rest) (off + zlen w1 + zlen bs) (S f) _ _ Hw2 eq_refl eq_refl S3).
+    assert (HF : follow_ok (w2 ++ 93 :: rest)) by (apply follow_ws; [exact Hw2|simpl; tauto]).
+    assert (HP : has_prepend (bs ++ w2 ++ 93 :: rest) = false) by (eapply has_prepend_app; exact Hp).
+    destruct (IH _ _ _ _ HF HP S2) as [ts [f' [H1 H2]]].
+    exists (ts ++ [mkTok TBrackC [93] (off + zlen w1 + zlen bs + zlen w2) (off + zlen w1 + zlen bs + zlen w2 + 1)]), f'.
+    split; [|apply TE_one; [exact H2|reflexivity]].
+    rewrite <- app_assoc. cbn [app].
+    apply (scan_ws w1 _ off f' _ _ Hw1 (value_head_nows _ _ _ Hv) eq_refl H1).
+  - (* more elements *)
+    intros w1 bs w2 v erest vs Hw1 Hv IHv Hw2 He IHe rest off f tsr Hp Hs.
+    rewrite <- !app_assoc in *. cbn [app] in *. rewrite <- !app_assoc in *.
+    assert (Hp2 : has_prepend (erest ++ 93 :: rest) = false).
+    { apply (has_prepend_app (w1 ++ bs ++ w2 ++ [44])). rewrite <- !app_assoc. cbn [app]. exact Hp. }
+    destruct (IHe rest (off + zlen w1 + zlen bs + zlen w2 + 1) f tsr Hp2) as [tse [fe [E1 E2]]].
+    { replace (off + zlen w1 + zlen bs + zlen w2 + 1 + zlen erest + 1)
+        with (off + zlen (w1 ++ bs ++ w2 ++ 44 :: erest) + 1) by zl. exact Hs. }
+    assert (S3 := scan_punct 44 TComma _ (off + zlen w1 + zlen bs + zlen w2) fe _ _ eq_refl eq_refl E1).
+    assert (S2 := scan_ws w2 _ (off + zlen w1 + zlen bs) (S fe) _ _ Hw2 eq_refl eq_refl S3).
+    assert (HF : follow_ok (w2 ++ 44 :: erest ++ 93 :: rest)) by (apply follow_ws; [exact Hw2|simpl; tauto]).
+    assert (HP : has_prepend (bs ++ w2 ++ 44 :: erest ++ 93 :: rest) = false) by (eapply has_prepend_app; exact Hp).
+    destruct (IHv _ _ _ _ HF HP S2) as [ts [f' [H1 H2]]].
+    eexists (ts ++ _ :: tse), f'. split.
+    + rewrite <- app_assoc. cbn [app].
+      apply (scan_ws w1 _ off f' _ _ Hw1 (value_head_nows _ _ _ Hv) eq_refl H1).
+    + apply TE_cons; [exact H2|reflexivity|exact E2].
+  - (* one member *)
+    intros w1 kb k w2 w3 bs w4 v Hw1 Hk Hw2 Hw3 Hv IH Hw4 rest off f tsr Hp Hs.
+    rewrite <- !app_assoc in *. cbn [app] in *. rewrite <- !app_assoc in *.
+    set (o1 := off + zlen w1). set (o2 := o1 + zlen kb). set (o3 := o2 + zlen w2).
+    set (o4 := o3 + 1 + zlen w3). set (o5 := o4 + zlen bs). set (o6 := o5 + zlen w4).
+    assert (S6 : jscan_fuel (S f) o6 (125 :: rest) = Some (mkTok TBraceC [125] o6 (o6 + 1) :: tsr)).
+    { apply (scan_punct 125 TBraceC); [reflexivity|reflexivity|].
+      replace (o6 + 1) with (off + zlen (w1 ++ kb ++ w2 ++ 58 :: w3 ++ bs ++ w4) + 1) by (unfold o6, o5, o4, o3, o2, o1; zl).
+      exact Hs. }
+    assert (S5 := scan_ws w4 _ o5 (S f) _ _ Hw4 eq_refl eq_refl S6).
+    assert (HF : follow_ok (w4 ++ 125 :: rest)) by (apply follow_ws; [exact Hw4|simpl; tauto]).
+    assert (HP : has_prepend (bs ++ w4 ++ 125 :: rest) = false).
+    { apply (has_prepend_app (w1 ++ kb ++ w2 ++ 58 :: w3)). rewrite <- !app_assoc. cbn [app]. rewrite <- !app_assoc. exact Hp. }
+    destruct (IH _ _ _ _ HF HP S5) as [ts [f1 [H1 H2]]].
+    assert (S4 := scan_ws w3 _ (o3 + 1) f1 _ _ Hw3 (value_head_nows _ _ _ Hv) eq_refl H1).
+    assert (S3 := scan_punct 58 TColon _ o3 f1 _ _ eq_refl eq_refl S4).
+    assert (S2 := scan_ws w2 _ o2 (S f1) _ _ Hw2 eq_refl eq_refl S3).
+    pose proof (json_string_decode_complete _ _ Hk) as Hd.
+    pose proof (string_head_nows _ _ (w2 ++ 58 :: w3 ++ bs ++ w4 ++ 125 :: rest) Hk) as Hh.
+    assert (Hpk : has_prepend (kb ++ w2 ++ 58 :: w3 ++ bs ++ w4 ++ 125 :: rest) = false)
+      by (eapply has_prepend_app; exact Hp).
+    destruct Hk as [items Hi].
+    assert (S1 : jscan_fuel (S (S f1)) o1 ((34 :: flat_map item_bytes items ++ [34]) ++ w2 ++ 58 :: w3 ++ bs ++ w4 ++ 125 :: rest)
+                 = Some (mkTok TString (34 :: flat_map item_bytes items ++ [34]) o1 o2 :: mkTok TColon [58] o3 (o3 + 1) :: ts ++ mkTok TBraceC [125] o6 (o6 + 1) :: tsr)).
+    { apply (scan_token _ TString (34 :: flat_map item_bytes items ++ [34]) (w2 ++ 58 :: w3 ++ bs ++ w4 ++ 125 :: rest)); try assumption; try reflexivity; try eassumption.
+      apply next_token_string; [exact Hi|].
+      cbn [app] in Hpk. rewrite <- app_assoc in Hpk. cbn [app] in Hpk.
+      destruct (has_prepend_cons _ _ Hpk) as [_ Hp']. exact Hp'. }
+    eexists (_ :: _ :: ts ++ [_]), (S (S f1)). split.
+    + apply (scan_ws w1 _ off _ _ o1 Hw1 Hh eq_refl). cbn [app]. rewrite <- app_assoc. cbn [app]. exact S1.
+    + apply TM_one; try reflexivity; assumption.
+  - (* more members *)
+    intros w1 kb k w2 w3 bs w4 v mrest ms Hw1 Hk Hw2 Hw3 Hv IHv Hw4 Hm IHm rest off f tsr Hp Hs.
+    rewrite <- !app_assoc in *. cbn [app] in *. rewrite <- !app_assoc in *. cbn [app] in *. rewrite <- !app_assoc in *.
+    set (o1 := off + zlen w1). set (o2 := o1 + zlen kb). set (o3 := o2 + zlen w2).
+    set (o4 := o3 + 1 + zlen w3). set (o5 := o4 + zlen bs). set (o6 := o5 + zlen w4).
+    assert (Hp2 : has_prepend (mrest ++ 125 :: rest) = false).
+    { apply (has_prepend_app (w1 ++ kb ++ w2 ++ 58 :: w3 ++ bs ++ w4 ++ [44])).
+      rewrite <- !app_assoc. cbn [app]. rewrite <- !app_assoc. cbn [app]. exact Hp. }
+    destruct (IHm rest (o6 + 1) f tsr Hp2) as [tsm [fm [E1 E2]]].
+    { replace (o6 + 1 + zlen mrest + 1)
+        with (off + zlen (w1 ++ kb ++ w2 ++ 58 :: w3 ++ bs ++ w4 ++ 44 :: mrest) + 1)
+        by (unfold o6, o5, o4, o3, o2, o1; zl). exact Hs. }
+    assert (S6 := scan_punct 44 TComma _ o6 fm _ _ eq_refl eq_refl E1).
+    assert (S5 := scan_ws w4 _ o5 (S fm) _ _ Hw4 eq_refl eq_refl S6).
+    assert (HF : follow_ok (w4 ++ 44 :: mrest ++ 125 :: rest)) by (apply follow_ws; [exact Hw4|simpl; tauto]).
+    assert (HP : has_prepend (bs ++ w4 ++ 44 :: mrest ++ 125 :: rest) = false).
+    { apply (has_prepend_app (w1 ++ kb ++ w2 ++ 58 :: w3)). rewrite <- !app_assoc. cbn [app]. rewrite <- !app_assoc. exact Hp. }
+    destruct (IHv _ _ _ _ HF HP S5) as [ts [f1 [H1 H2]]].
+    assert (S4 := scan_ws w3 _ (o3 + 1) f1 _ _ Hw3 (value_head_nows _ _ _ Hv) eq_refl H1).
+    assert (S3 := scan_punct 58 TColon _ o3 f1 _ _ eq_refl eq_refl S4).
+    assert (S2 := scan_ws w2 _ o2 (S f1) _ _ Hw2 eq_refl eq_refl S3).
+    pose proof (json_string_decode_complete _ _ Hk) as Hd.
+    pose proof (string_head_nows _ _ (w2 ++ 58 :: w3 ++ bs ++ w4 ++ 44 :: mrest ++ 125 :: rest) Hk) as Hh.
+    assert (Hpk : has_prepend (kb ++ w2 ++ 58 :: w3 ++ bs ++ w4 ++ 44 :: mrest ++ 125 :: rest) = false)
+      by (eapply has_prepend_app; exact Hp).
+    destruct Hk as [items Hi].
+    assert (S1 : jscan_fuel (S (S f1)) o1 ((34 :: flat_map item_bytes items ++ [34]) ++ w2 ++ 58 :: w3 ++ bs ++ w4 ++ 44 :: mrest ++ 125 :: rest)
+                 = Some (mkTok TString (34 :: flat_map item_bytes items ++ [34]) o1 o2 :: mkTok TColon [58] o3 (o3 + 1) :: ts ++ mkTok TComma [44] o6 (o6 + 1) :: tsm ++ tsr)).
+    { apply (scan_token _ TString (34 :: flat_map item_bytes items ++ [34]) (w2 ++ 58 :: w3 ++ bs ++ w4 ++ 44 :: mrest ++ 125 :: rest)); try assumption; try reflexivity; try eassumption.
+      apply next_token_string; [exact Hi|].
+      cbn [app] in Hpk. rewrite <- app_assoc in Hpk. cbn [app] in Hpk.
+      destruct (has_prepend_cons _ _ Hpk) as [_ Hp']. exact Hp'. }
+    eexists (_ :: _ :: ts ++ _ :: tsm), (S (S f1)). split.
+    + apply (scan_ws w1 _ off _ _ o1 Hw1 Hh eq_refl). cbn [app]. rewrite <- app_assoc. cbn [app]. exact S1.
+    + apply TM_cons; try reflexivity; assumption.
+Qed.
